@@ -63,7 +63,7 @@ namespace c14 { void set_cp_bt(void** p); void set_phase_ptr(volatile int* p); }
 
 static Args ARGS;
 static std::vector<Scenario> SC;     // selected scenarios
-struct Dry { unsigned long allocs, checkpoints; bool ok; bool overflowed; };
+struct Dry { unsigned long allocs, checkpoints; bool ok; bool overflowed; double ms; };
 static std::vector<Dry> DRYS;
 
 // per scenario shared statistics
@@ -157,12 +157,13 @@ static std::string fault_trigger(Mode m, unsigned long k, std::string* chain = 0
 }
 
 static fi::LiveBlock* LB; enum { LB_MAX = 4096 };
+static Coefficient& BASE_MAG() { static Coefficient b(1); return b; }   // the magnitude of the non-overflow runs (--mag)
 
 // executes (scenario, mode, k) and judges it; returns whether the fault fired
 static bool judge(int si, Mode m, unsigned long k) {
   const Scenario& s = SC[si];
   Outcome o;
-  if (m == OVERFLOW) MAG() = Coefficient(LADDER[k]);
+  MAG() = (m == OVERFLOW) ? Coefficient(LADDER[k]) : BASE_MAG();
   run_once(s, m, k, o);
   bool fired = o.r.fired;
   if (m == OVERFLOW) fired = (o.r.caught == C_OVERFLOW) || (o.escaped && o.escaped_kind == C_OVERFLOW);
@@ -358,7 +359,7 @@ int main(int argc, char** argv) {
   bool want_alloc = modes.find("alloc") != std::string::npos, want_abn = modes.find("abandon") != std::string::npos,
        want_ovf = modes.find("overflow") != std::string::npos;
   std::string big = ARGS.opt("--mag", "");
-  if (!big.empty()) { mpz_class z(big); MAG() = vf::to_coeff(z); }
+  if (!big.empty()) { mpz_class z(big); MAG() = vf::to_coeff(z); BASE_MAG() = MAG(); }
 
   std::vector<Scenario>& all = registry();
   std::string replay_scn; Mode replay_mode = ALLOC; unsigned long replay_k = 0;
@@ -395,8 +396,10 @@ int main(int argc, char** argv) {
   for (size_t i = 0; i < SC.size(); ++i) {
     Outcome o;
     alarm(120);   // a scenario that hangs without any fault is a harness problem: die loudly
-    for (int rep = 0; rep < 3; ++rep) run_once(SC[i], DRY, 0, o);
+    double td = 0;
+    for (int rep = 0; rep < 3; ++rep) { td = now_s(); run_once(SC[i], DRY, 0, o); td = now_s() - td; }
     alarm(0);
+    DRYS[i].ms = td * 1000;
     DRYS[i].allocs = o.r.allocs; DRYS[i].checkpoints = o.r.checkpoints;
     DRYS[i].ok = o.r.entered && o.r.completed && !o.escaped && o.r.n_problems == 0 && o.balance <= 0;
     bool native_overflow = (o.r.caught == C_OVERFLOW || (o.escaped && o.escaped_kind == C_OVERFLOW)) && bounded_coefficients();
@@ -423,10 +426,12 @@ int main(int argc, char** argv) {
 
   // ---- items
   unsigned long max_allocs = strtoul(ARGS.opt("--max-allocs", "0").c_str(), 0, 10);
-  size_t n_enumerated = 0;
+  size_t n_enumerated = 0, n_too_slow = 0;
+  double max_dry_ms = atof(ARGS.opt("--max-dry-ms", "0").c_str());
   for (size_t i = 0; i < SC.size(); ++i) {
     if (!DRYS[i].ok && !(want_ovf && DRYS[i].overflowed)) continue;   // an unclean unfaulted run has been reported already
     if (max_allocs && DRYS[i].allocs > max_allocs) continue;   // left to the thorough tier
+    if (max_dry_ms > 0 && DRYS[i].ms > max_dry_ms) { ++n_too_slow; continue; }   // one unfaulted run is already too slow to repeat N times
     ++n_enumerated;
     if (want_alloc && DRYS[i].ok) {
       unsigned long N = DRYS[i].allocs;
@@ -522,7 +527,7 @@ int main(int argc, char** argv) {
     Mode m = want_alloc ? ALLOC : want_ovf ? OVERFLOW : ABANDON;
     samples.push_back(input_json(SC[i], i, m, m == OVERFLOW ? 3 : std::max<unsigned long>(1, DRYS[i].allocs / 2)));
   }
-  J extra; extra.num("scenarios", SC.size()).num("scenarios_enumerated", n_enumerated).num("scenarios_registered", all.size()).str("modes", modes).num("work_items", ITEMS.size())
+  J extra; extra.num("scenarios", SC.size()).num("scenarios_enumerated", n_enumerated).num("scenarios_left_out_because_one_unfaulted_run_is_too_slow", n_too_slow).num("scenarios_registered", all.size()).str("modes", modes).num("work_items", ITEMS.size())
     .num("allocation_requests_in_dry_runs", total_allocs)
     .num("faulted_runs", counter(CNT_EVAL)).num("fault_fired", counter(CNT_FIRED)).num("alloc_faults_fired", counter(CNT_ALLOC_FIRED))
     .num("abandonments_fired", counter(CNT_ABN_FIRED)).num("overflows_fired", counter(CNT_OVF_FIRED)).num("fault_not_reached", counter(CNT_NOTFIRED))
